@@ -42,7 +42,17 @@ MANIFEST = {
             "membership functions have strict shapes, and the window between the size read by the admission test and the size read by the "
             "accounting contains no write on the frame (C18_gen_size_window). The rig drives remove/add/clear directly, empties and "
             "repopulates every frequency inside a tick, moves an access point to another frequency in mid-episode, checks that no load "
-            "decreases inside a tick, and compares a wireless access point's answer with the acceptance model.",
+            "decreases inside a tick, and compares a wireless access point's answer with the acceptance model. Round 7: the tick of "
+            "the property is the STEP of an episode: episode / runSteps (tick, the agents' traffic, apply_timestep's traffic) with "
+            "C18_every_step_carried_le_bandwidth, C18_every_step_starts_at_zero, and the call orders the property excludes proved to "
+            "violate it (reset behind the agents' actions; reset dropped); the three places the step loop is written are read from "
+            "the source (C18_gen_step_loops, C18_gen_timestep_drivers); the rig checks every env.step / game.step as a whole (reset "
+            "first and once, first send on every link finds load 0 - scenario cases start from the load construction left -, bytes "
+            "carried in the step within capacity). The budget of a wireless channel is that of the PHYSICAL channel (hz): "
+            "C18_physical_channel_le_capacity for any number of names and access points, C18_budget_per_name_counterexample, the "
+            "index of the budget read from the source (C18_gen_air_keys); the rig keeps its own per-hz sum of what was handed to "
+            "AirSpace.transmit and never depends on the shape of the implementation's dict (an unreadable container is a broken "
+            "correspondence obligation followed by search, not an internal error).",
     "note": "C18-specific: frame sizes (JSON length of the frame, F-9) and the far interface's accept/reject answer are inputs to the "
             "model, not predicted (the answer is compared with C08's acceptance model); IEEE-754 behaviour (exact when representable, "
             "monotone) is assumed, not verified; which software raises is not predicted (an exception is an input event).",
